@@ -2,7 +2,7 @@
    PARTIAL: "one cell per enclosed region" and the invariance under the symmetries of the square depend on what cv2.findContours
    returns for each pixel pattern; that library is a black box.  Proved here is what ForSys does with the contours before its
    clean-up passes; everything else is evaluated by harness/props/c15.py. *)
-From Coq Require Import ZArith List Bool.
+From Coq Require Import ZArith List Bool Permutation.
 From Forsys Require Import Model.Skeleton Proofs.SkeletonProofs.
 Import ListNotations.
 
@@ -14,8 +14,46 @@ Theorem C15_one_cell_per_contour : forall contours,
   map (@length Z) (sk_cells (lattice contours)) = map (@length pix) contours.
 Proof. exact one_cell_per_contour. Qed.
 
+(* the large-area filter of Skeleton.__post_init__ (exact on integer pixel coordinates) *)
+Theorem C15_contour_kept_by_its_own_area : forall cs c,
+  In c (area_filter cs) <-> In c cs /\ keeps (map area2_pix cs) (area2_pix c) = true.
+Proof. exact area_filter_spec. Qed.
+Theorem C15_filter_independent_of_contour_order : forall cs cs', Permutation cs cs' -> Permutation (area_filter cs) (area_filter cs').
+Proof. exact area_filter_perm. Qed.
+Theorem C15_filter_keeps_contour_order : forall cs, subseq (area_filter cs) cs.
+Proof. exact area_filter_keeps_order. Qed.
+Theorem C15_contour_area_isometry : forall m11 m12 m21 m22 tx ty c, Z.abs (m11 * m22 - m12 * m21) = 1%Z ->
+  area2_pix (map (affine m11 m12 m21 m22 tx ty) c) = area2_pix c.
+Proof. exact area2_isometry. Qed.
+Theorem C15_contour_area_start_pixel : forall l1 l2, area2_pix (l2 ++ l1) = area2_pix (l1 ++ l2).
+Proof. exact area2_rotate. Qed.
+Theorem C15_contour_area_sense : forall c, area2_pix (rev c) = area2_pix c.
+Proof. exact area2_reverse. Qed.
+Theorem C15_filter_commutes_with_symmetries_and_padding : forall m11 m12 m21 m22 tx ty cs, Z.abs (m11 * m22 - m12 * m21) = 1%Z ->
+  area_filter (map (map (affine m11 m12 m21 m22 tx ty)) cs) = map (map (affine m11 m12 m21 m22 tx ty)) (area_filter cs).
+Proof. exact area_filter_isometry. Qed.
+Theorem C15_threshold_ignores_the_largest_region : forall (rest : list Z) (big big' x : Z),
+  (forall y, In y rest -> (0 <= y)%Z) -> (zmax rest <= big)%Z -> (big <= big')%Z -> keeps (big :: rest) x = keeps (big' :: rest) x.
+Proof. exact threshold_ignores_the_largest. Qed.
+
+(* six unit squares, one 10 x 10 region and one 30 x 30 region: the two large ones are dropped, the unit squares stay, whatever the order *)
+Example C15_filter_drops_the_oversized :
+  let sq (x y s : Z) := [(x, y); (x + s, y); (x + s, y + s); (x, y + s)]%Z in
+  let small := [sq 0 0 1; sq 2 0 1; sq 4 0 1; sq 6 0 1; sq 8 0 1; sq 10 0 1]%Z in
+  area_filter (sq 20 20 10 :: sq 40 0 30 :: small) = small /\ area_filter (small ++ [sq 40 0 30; sq 20 20 10]) = small
+  /\ area_filter ([sq 0 0 1; sq 2 0 1; sq 4 0 1] ++ [sq 40 0 30; sq 20 20 10]) = [sq 0 0 1; sq 2 0 1; sq 4 0 1; sq 20 20 10].
+Proof. vm_compute. repeat split; reflexivity. Qed.
+
 Example C15_shared_pixels : sk_cells (lattice [[(0, 0); (1, 0); (1, 1)]; [(1, 0); (2, 0); (1, 1)]]%Z) = [[0; 1; 2]; [1; 3; 2]]%Z.
 Proof. vm_compute. reflexivity. Qed.
 
 Print Assumptions C15_interning_by_position.
 Print Assumptions C15_one_cell_per_contour.
+Print Assumptions C15_contour_kept_by_its_own_area.
+Print Assumptions C15_filter_independent_of_contour_order.
+Print Assumptions C15_filter_keeps_contour_order.
+Print Assumptions C15_contour_area_isometry.
+Print Assumptions C15_contour_area_start_pixel.
+Print Assumptions C15_contour_area_sense.
+Print Assumptions C15_filter_commutes_with_symmetries_and_padding.
+Print Assumptions C15_threshold_ignores_the_largest_region.
